@@ -34,6 +34,8 @@ Record gjob := mkGjob {
   g_ttl : option Z;        (* spec.ttlSecondsAfterFinished (int32, seconds) *)
   g_deleting : bool;       (* metadata.deletionTimestamp != nil *)
   g_finish : option Z;     (* status.state.lastTransitionTime; None = zero time *)
+  g_created : option Z;    (* metadata.creationTimestamp; carried so that the theorems can say the
+                              code does NOT read it: the finish time is the recorded one or nothing *)
 }.
 
 (* needsCleanup, 267-269 *)
